@@ -2,17 +2,34 @@ chk("C12", "proof",
     "Unbounded theorems (all n >= 0) in coq/Properties/C12.v about a Z transcription of time_code.py: round trip, validity "
     "(SMPTE-skipped labels never produced), successor = SMPTE counting sequence, strict increase, add_frames, offsets, exact frame "
     "boundaries, parse-of-print, ClockTime nearest/monotone/fields; closed under the global context. The transcription is tied to "
-    "the code by an extracted-OCaml-model correspondence run over frame counts (every count of 24 h at 8 rates in the thorough tier).",
-    "Trusted: Coq kernel; extraction (ExtrOcamlBasic only) and driver.ml; Python float/true-division exactness below 2^53 "
-    "(exercised exhaustively, not proved); ClockTime.from_seconds on floats compared with S only. 24000/1001 round trip is a recorded finding.",
-    "Coq theorems by lia over normal-form lemmas + extracted-model differential run", "DESIGN.md section 5 C12")
+    "the code twice on every run. (1) Translation: harness/pytrans.py (fail-closed Python ast -> Gallina) regenerates "
+    "coq/Gen/TimeCodeSrc.v from the current source (from_frames, to_frames, to_temporal_offset, is_drop_frame, add_frames, from_seconds "
+    "int/Fraction branch, the integer part of to_seconds, ClockTime.from_seconds on Fractions, both __str__) over coq/Base/PyNum.v "
+    "(exact Python int/Fraction arithmetic on Qc: floor, ceil, round half-even, round(x, n), int, //, %, comparisons, f'{x:02}'); "
+    "the C12_source_refines_* theorems prove, for every rate in lowest terms and every frame count / label / rational, that each "
+    "generated function equals the hand-written model on injected inputs, and C12_src_roundtrip/valid/succ/monotone/boundary/"
+    "clock_nearest restate the headline theorems about the generated functions; the generated functions are also evaluated by "
+    "vm_compute against the code on about 1 500 inputs. (2) Differential: extracted-OCaml-model correspondence run over frame counts "
+    "(every count of 24 h at 8 rates in the thorough tier).",
+    "Trusted: Coq kernel; harness/pytrans.py and the reading of CPython numerics in Base/PyNum.v (exercised by vm_compute against "
+    "CPython on every run); extraction (ExtrOcamlBasic only) and driver.ml; Python float/true-division exactness below 2^53 at the "
+    "places the translator lists in the evidence (modelled as exact rational operations; exercised exhaustively, not proved); "
+    "ZeroDivisionError not modelled (no divisor is 0 for rates >= 9/1001). Tied by differential runs only: both parse functions "
+    "(regular expressions), float arguments of from_seconds (Unsupported in the generated model) and of ClockTime.from_seconds "
+    "(compared with S only). 24000/1001 round trip is a recorded finding.",
+    "Coq theorems by lia over normal-form lemmas + source-to-Gallina translation with refinement theorems + extracted-model differential run",
+    "DESIGN.md section 5 C12")
 chk("C17", "proof",
     "The domain is finite (65 536 words): coq/Properties/C17.v decides inside the kernel (vm_compute over every word, bound in the "
     "statement) that the transcribed lookup logic over the enum tables regenerated from the source gives exactly one class, ignores "
     "parity, has no overlapping table entries, attributes only channel-1 field-1 codes to channel 1, and equals an independently "
     "written bit-layout decoder of CTA-608 on class, channel, code identity, PAC attributes and characters. The model is compared "
-    "with SccWord on all 65 536 values on every run, and the specification is evaluated on the implementation's own output.",
+    "with SccWord on all 65 536 values on every run, and the specification is evaluated on the implementation's own output. "
+    "Second tie: harness/pytrans_scc.py (fail-closed Python-ast translator) regenerates coq/Gen/SccWordSrc.v from scc/word.py on every run "
+    "(SccWord.__init__, _decipher_parity_bit, from_value, from_bytes, is_code, the _find_code or-chain, get_channel, to_text) and "
+    "C17_source_refines (all 65 536 values, in the kernel) plus four unbounded range/parity theorems show the generated definitions equal "
+    "to the hand-written model; the calls into scc/codes/*.py stay hand-written externs (Model/SccWordExt.v) tied by the exhaustive run.",
     "Trusted: Coq kernel/vm_compute; gen_tables.py (fail-closed translator); my reading of CTA-608 tables 50-53 in Spec/Cea608Words.v "
-    "(accepts sets for glyph-only characters and for 'green'); impl_row in harness/c17.py. Disassembly is checked on the code only "
+    "(accepts sets for glyph-only characters and for 'green'); impl_row in harness/c17.py; harness/pytrans_scc.py and the PyNum semantics (Base/PyNum.v) of the translated subset. Disassembly is checked on the code only "
     "(every word, random lines), not modelled. Recorded finding: 0x132C decodes to U+028C instead of ^.",
     "finite-domain Coq theorem (vm_compute, all words) + regenerated tables + exhaustive in-Coq correspondence", "DESIGN.md section 5 C17")
